@@ -111,7 +111,7 @@ def handleLex (ws : List String) (_blk : Array String) : Option String :=
     match parseHex lang, parseHexListFast a, parseHexListFast b with
     | some l, some x, some y =>
       if [dig, permit, aac, bac].all (fun w => w = "0" ∨ w = "1") then
-        some (if forceSpace l (dig = "1") (permit = "1") x (aac = "1") y (bac = "1") then "1" else "0")
+        some (if forceSpace2 l (dig = "1") (permit = "1") x (aac = "1") y (bac = "1") then "1" else "0")
       else some "bad-op"
     | _, _, _ => some "bad-op"
   | ["lex.munch", lang, hex] =>
